@@ -149,7 +149,7 @@ def explore(source, cfg, place, res, max_states):
             p0 = catalog.build(source, cfg, place)
             p0.sys.getSimulator()
     except Exception as e:
-        py4hw.Wire.prepared = []
+        core.reset_prepared()
         res['constructor_rejected'] += 1
         return
     try:
